@@ -22,7 +22,7 @@ class Geo:
         """a fresh generic row index in [0, n) (skolem constant of a forall-rows goal)"""
         c = cur()
         r = z3.Int(fresh_name(name))
-        c.assume(z3.And(0 <= r, r < self.n))
+        c.skolem(z3.And(0 <= r, r < self.n))
         c.add_index(r)
         return r
 
